@@ -356,7 +356,7 @@ func (st *State) specField(x Value, name string, env *specEnv) Value {
 				l := &Loc{Cell: cur.Loc.Cell, Path: append(append([]step(nil), cur.Loc.Path...), step{field: idx, T: ft})}
 				cur = st.readLoc(l)
 			} else {
-				cur = st.loadH(env.heap, sub(cur.Term, idx), ft)
+				cur = st.loadH(env.heap, st.eng.fsub(cur.Term, pt.Elem(), idx), ft)
 			}
 			continue
 		}
@@ -403,7 +403,7 @@ func (st *State) evalAddr(e *SExpr, env *specEnv) (string, types.Type) {
 		for i, idx := range path {
 			stt := T.Underlying().(*types.Struct)
 			ft := stt.Field(idx).Type()
-			addr = sub(addr, idx)
+			addr = st.eng.fsub(addr, T, idx)
 			T = ft
 			if i < len(path)-1 {
 				if p2, ok := T.Underlying().(*types.Pointer); ok {
@@ -582,9 +582,7 @@ func (st *State) specBinary(e *SExpr, env *specEnv) Value {
 	}
 	switch e.Op {
 	case "==":
-		if a.S == SSlice {
-			env.fail("== on slices: compare bytes(...) or fields")
-		}
+		// on slices == means "the identical slice" (same backing array, offset, length, capacity)
 		return Value{T: boolT, S: SBool, Term: eq(a.Term, b.Term)}
 	case "!=":
 		return Value{T: boolT, S: SBool, Term: not(eq(a.Term, b.Term))}
@@ -814,6 +812,27 @@ func (st *State) specCall(e *SExpr, env *specEnv) Value {
 			x := st.evalSpec(args[0], env)
 			T, _ := st.resolveSpecType(args[1].String(), env)
 			return Value{T: boolT, S: SBool, Term: eq(app("i_tag", x.Term), fmt.Sprint(te.TypeID(T)))}
+		case "pure_fn":
+			// pure_fn(f): calling the function value f changes nothing the caller can observe
+			x := st.evalSpec(args[0], env)
+			st.eng.pre.Fun("fn_pure", "(Ref) Bool")
+			if x.Term == "" {
+				return Value{T: boolT, S: SBool, Term: "true"}
+			}
+			return Value{T: boolT, S: SBool, Term: app("fn_pure", x.Term)}
+		case "hashlen_fn":
+			// hashlen_fn(f): the Len() of the hashers the factory f returns (ghost attribute)
+			x := st.evalSpec(args[0], env)
+			st.eng.pre.Fun("fn_hashlen", "(Ref) (_ BitVec 16)")
+			if x.Term == "" {
+				env.fail("hashlen_fn of a static function")
+			}
+			return Value{T: types.Typ[types.Uint16], S: BV(16), Term: app("fn_hashlen", x.Term)}
+		case "hashlen":
+			// hashlen(h): the constant Len() of hasher h (ghost attribute)
+			x := st.evalSpec(args[0], env)
+			st.eng.pre.Fun("iface_hashlen", "(Iface) (_ BitVec 16)")
+			return Value{T: types.Typ[types.Uint16], S: BV(16), Term: app("iface_hashlen", x.Term)}
 		case "nonnil_fn":
 			// nonnil_fn(f): every call of the function value f returns non-nil results
 			x := st.evalSpec(args[0], env)
@@ -835,6 +854,22 @@ func (st *State) specCall(e *SExpr, env *specEnv) Value {
 		case "dyn":
 			// dyn(i, *T): the dynamic value of interface i viewed as type *T (pointer-like)
 			x := st.evalSpec(args[0], env)
+			if len(args) == 1 {
+				// dyn(i): the dynamic value of i when its dynamic type is statically known at this call site
+				if strings.HasPrefix(x.Term, "(mk_iface ") {
+					parts := splitTop(x.Term[len("(mk_iface ") : len(x.Term)-1])
+					var id int
+					if _, err := fmt.Sscanf(parts[0], "%d", &id); err == nil {
+						te.mu.Lock()
+						DT := te.typeByID[id]
+						te.mu.Unlock()
+						if DT != nil && te.SortOf(DT) == SRef {
+							return Value{T: DT, S: SRef, Term: parts[1]}
+						}
+					}
+				}
+				env.fail("dyn(%s): dynamic type not statically known here", args[0])
+			}
 			T, s := st.resolveSpecType(args[1].String(), env)
 			if s == SRef {
 				return Value{T: T, S: SRef, Term: app("i_ref", x.Term)}
@@ -970,7 +1005,9 @@ func (st *State) evalLocs(e *SExpr, env *specEnv) (out []modEntry) {
 	defer func() {
 		if r := recover(); r != nil {
 			if se, ok := r.(specErr); ok {
-				st.res.Errors = append(st.res.Errors, "modifies: "+string(se))
+				if !strings.Contains(string(se), "dynamic type not statically known") {
+					st.res.Errors = append(st.res.Errors, "modifies: "+string(se))
+				}
 				out = []modEntry{{kind: "all"}}
 				return
 			}
